@@ -55,6 +55,13 @@ static HOLD_P12: AtomicBool = AtomicBool::new(false);
 /// final wait (`wg.await` after the accept loop): the first poll that found sessions in flight is held between reading the counter and
 /// whatever it does to be polled again, until the harness has let the last session finish - the window in which a wake-up can be lost
 static HOLD_WG: AtomicBool = AtomicBool::new(false);
+/// "queued session" scenario: on a current-thread runtime a session spawned by the accept loop is not polled before the accept-loop task
+/// yields. When armed, the hook at p12- notices its second arrival within ONE poll of the accept-loop task (the first arrival's accept was
+/// ready: a connection was accepted and its session spawned in this very poll) and delivers the interrupt right there, waiting until the
+/// signal handler has finished: the loop then sees the flag while that session has not run a single step yet. It is in flight all the same.
+static QUEUED_ARMED: AtomicBool = AtomicBool::new(false);
+static QUEUED_FIRED: AtomicBool = AtomicBool::new(false);
+static QUEUED_LAST: Mutex<(u64, u64)> = Mutex::new((0, 0));
 static WG_POLLS: AtomicU64 = AtomicU64::new(0);
 static WG_PENDINGS: AtomicU64 = AtomicU64::new(0);
 static WS_GATE: AtomicBool = AtomicBool::new(false);
@@ -152,6 +159,21 @@ fn sched_callback(point: &'static str) {
     log(format!("pt:{point}"));
     let forced = ST.lock().unwrap().as_ref().map(|s| s.forced).unwrap_or(false);
     if !forced {
+        if point == "p12-" && QUEUED_ARMED.load(Ordering::SeqCst) && !QUEUED_FIRED.load(Ordering::SeqCst) {
+            let tp = POLLS.load(Ordering::SeqCst);
+            let n = { let mut g = QUEUED_LAST.lock().unwrap(); if g.0 == tp { g.1 += 1 } else { *g = (tp, 1) } g.1 };
+            if n >= 2 {
+                QUEUED_FIRED.store(true, Ordering::SeqCst);
+                log("queued:accepted-and-spawned-in-this-poll");
+                log("SIGINT");
+                raise_sigint("queued");
+                let t = Instant::now();
+                while !LOG.lock().unwrap().iter().any(|(_, e)| e == "pt:s.end") && t.elapsed() < Duration::from_secs(30) {
+                    std::thread::sleep(Duration::from_millis(1));
+                }
+                log("queued:poll-goes-on");
+            }
+        }
         if point == "p12-" && HOLD_P12.load(Ordering::SeqCst) {
             log("held_at:p12-");
             let t = Instant::now();
@@ -255,19 +277,28 @@ fn sched_callback(point: &'static str) {
     }
 }
 
-/// waker wrapper that counts wakes of the accept-loop task
-struct CountingWaker(Waker);
+/// Waker wrapper of the accept-loop task. It counts wakes, and it is as strict as the `Future` contract allows an executor to be: only the
+/// waker handed to the MOST RECENT poll reaches the task ("only the Waker from the Context passed to the most recent call should be
+/// scheduled to receive a wakeup"); a waker kept from an earlier poll is dead, as it is after a future moved to another task. Code that
+/// publishes its waker once and never refreshes it loses the interrupt here, as it would after `select!` + `spawn_local`.
+static WAKER_GEN: AtomicU64 = AtomicU64::new(0);
+static STALE_WAKES: AtomicU64 = AtomicU64::new(0);
+struct CountingWaker(Waker, u64);
+impl CountingWaker {
+    fn fire(&self) {
+        if self.1 != WAKER_GEN.load(Ordering::SeqCst) {
+            STALE_WAKES.fetch_add(1, Ordering::SeqCst);
+            log("stale-wake-ignored");
+            return;
+        }
+        WAKES.fetch_add(1, Ordering::SeqCst);
+        log("wake");
+        self.0.wake_by_ref();
+    }
+}
 impl Wake for CountingWaker {
-    fn wake(self: Arc<Self>) {
-        WAKES.fetch_add(1, Ordering::SeqCst);
-        log("wake");
-        self.0.wake_by_ref();
-    }
-    fn wake_by_ref(self: &Arc<Self>) {
-        WAKES.fetch_add(1, Ordering::SeqCst);
-        log("wake");
-        self.0.wake_by_ref();
-    }
+    fn wake(self: Arc<Self>) { self.fire() }
+    fn wake_by_ref(self: &Arc<Self>) { self.fire() }
 }
 struct Wrap<F>(Pin<Box<F>>);
 impl<F: Future> Future for Wrap<F> {
@@ -275,7 +306,8 @@ impl<F: Future> Future for Wrap<F> {
     fn poll(mut self: Pin<&mut Self>, cx: &mut Context<'_>) -> Poll<F::Output> {
         POLLS.fetch_add(1, Ordering::SeqCst);
         log("task-poll");
-        let w = Waker::from(Arc::new(CountingWaker(cx.waker().clone())));
+        let generation = WAKER_GEN.fetch_add(1, Ordering::SeqCst) + 1;
+        let w = Waker::from(Arc::new(CountingWaker(cx.waker().clone(), generation)));
         let mut c = Context::from_waker(&w);
         self.0.as_mut().poll(&mut c)
     }
@@ -352,6 +384,7 @@ pub fn child(args: &Args) {
     let churn: u64 = args.flag("churn").map(|v| v.parse().unwrap()).unwrap_or(0);
     let ws = args.flag("ws").is_some();
     let holdwg = args.flag("holdwg").is_some();
+    let queued = args.flag("queued").is_some();
     let _ = OUT_PATH.set(args.out.clone());
     if args.flag("sigign").is_some() {
         // the process starts with SIGINT ignored, as a background job of a non-interactive shell does
@@ -428,6 +461,35 @@ pub fn child(args: &Args) {
                     }
                 }
             }
+        } else if queued {
+            // one client; its connection is accepted and its session spawned in the poll in which the interrupt is noticed (see QUEUED_ARMED)
+            std::thread::sleep(Duration::from_millis(150)); // let the session of the listener probe end
+            if let Some(g) = GATES.lock().unwrap().get_mut(0) { *g = true }
+            QUEUED_ARMED.store(true, Ordering::SeqCst);
+            let mut c = connect().ok();
+            if let Some(c) = c.as_mut() { let _ = c.write_all(b"GET /slow/0 HTTP/1.1\r\nHost: t\r\nConnection: close\r\n\r\n"); }
+            let t = Instant::now();
+            while !LOG.lock().unwrap().iter().any(|(_, e)| e == "queued:poll-goes-on") && t.elapsed() < Duration::from_secs(if patient { 60 } else { 15 }) {
+                std::thread::sleep(Duration::from_millis(2));
+            }
+            let fired = LOG.lock().unwrap().iter().any(|(_, e)| e == "queued:poll-goes-on");
+            let handler_ran = LOG.lock().unwrap().iter().any(|(_, e)| e == "pt:s.end");
+            let mut got = false;
+            if let Some(c) = c.as_mut() {
+                c.set_read_timeout(Some(Duration::from_secs(if patient { 30 } else { 5 }))).ok();
+                let mut b = [0u8; 512];
+                let n = c.read(&mut b).unwrap_or(0);
+                got = n > 0 && b[..n].windows(9).any(|w| w == b"slow done");
+                log(format!("client_got_response:0:{got}"));
+            }
+            drop(c);
+            let t = Instant::now();
+            while !HOWL_RETURNED.load(Ordering::SeqCst) && t.elapsed() < Duration::from_secs(if patient { 100 } else { 10 }) {
+                std::thread::sleep(Duration::from_millis(5));
+            }
+            verdict = if !fired { json!({"inconclusive": "queued scenario: no poll of the accept loop accepted a connection and went round"}) }
+                else if !handler_ran { json!({"inconclusive": "the signal handler never ran (queued scenario)"}) }
+                else { json!({"mode": "queued", "client_got_response": got, "howl_returned": HOWL_RETURNED.load(Ordering::SeqCst), "task_polls": POLLS.load(Ordering::SeqCst)}) };
         } else {
             // in-flight sessions: slow requests held by gates, idle keep-alive connections, then SIGINT, then the gates open in order
             if boom {
@@ -604,7 +666,8 @@ pub fn child(args: &Args) {
         let _ = std::fs::write(&out, serde_json::to_vec(&doc).unwrap());
         unsafe { libc::_exit(0) }
     });
-    let rt = tokio::runtime::Builder::new_multi_thread().worker_threads(if churn > 0 { 8 } else { 3 }).enable_all().build().unwrap();
+    let rt = if queued { tokio::runtime::Builder::new_current_thread().enable_all().build().unwrap() }
+        else { tokio::runtime::Builder::new_multi_thread().worker_threads(if churn > 0 { 8 } else { 3 }).enable_all().build().unwrap() };
     rt.block_on(Wrap(Box::pin(app().howl(("127.0.0.1", port)))));
     log("howl_returned");
     HOWL_RETURNED.store(true, Ordering::SeqCst);
@@ -694,6 +757,10 @@ pub fn run(args: &Args, rep: &mut Report) {
         let ch = ex.iter().any(|(k, _)| *k == "churn");
         let wsf = ex.iter().any(|(k, _)| *k == "ws");
         work.push((format!("sess:{s}:n{n}:idle{idle}{}{}{}{}", if ign { ":sigign" } else { "" }, if ch { ":churn" } else { "" }, if wsf { ":ws" } else { "" }, if b { ":boom" } else { "" }) + if hw { ":holdwg" } else { "" }, ex));
+    }
+    // a session that was accepted but has not run a step when the interrupt is noticed (current-thread runtime, forced through the hook)
+    for r in 0..(2 * repeats) {
+        work.push((format!("queued:r{r}"), vec![("queued", "1".into()), ("sessions", "1".into())]));
     }
     for (i, (name, extra)) in work.iter().enumerate() {
         if (i as u64) % args.nshards != args.shard || (i as u64) < args.start {
@@ -834,6 +901,21 @@ fn judge(rep: &mut Report, idx: u64, name: &str, doc: &Value) {
                 if rep.want_sample() && n >= 3 {
                     rep.sample(json!({"scenario": name, "completion_order": gates, "howl_returned_seq": r}));
                 }
+            }
+        }
+        Some("queued") => {
+            rep.count("queued_session_scenarios");
+            let returned = seq_of(&log, |e| e == "howl_returned");
+            let ends = seq_of(&log, |e| e == "handler_end:0");
+            rep.distinct(&format!("queued:{}", if ends.is_empty() { "unserved" } else { "served" }));
+            if !v["howl_returned"].as_bool().unwrap_or(false) {
+                rep.violation("C18/no-return-after-sessions", "the queued session finished (or never ran) but howl did not return within 10 s, nor within 100 s when the scenario was re-run alone", cj());
+            } else if ends.is_empty() || ends[0] > returned.first().copied().unwrap_or(u64::MAX) {
+                rep.violation("C18/returned-before-sessions-finished", "howl returned while a session that had been accepted before the interrupt was noticed (spawned, not yet polled) was still in flight", cj());
+            } else if v["client_got_response"].as_bool() != Some(true) {
+                rep.violation("C18/in-flight-response-lost", "the request of a session accepted before the interrupt was noticed did not get its response", cj());
+            } else {
+                rep.count("queued_session_served_before_howl_returned");
             }
         }
         _ => rep.count("inconclusive_children"),
